@@ -1025,7 +1025,8 @@ pub fn run_spec(out: &mut Out, run: u64, spec: &Value) {
             go!(problem, real_template::<RealProblem>(base, params, n), super::templates_extra::real_extra(base, params, n))
         }
         "bits" => {
-            let problem = BitProblem::new(prob["dim"].as_u64().unwrap() as usize);
+            let dim = prob["dim"].as_u64().unwrap() as usize;
+            let problem = if prob["f"].as_u64() == Some(1) { BitProblem::positional(dim) } else { BitProblem::new(dim) };
             go!(problem, bit_template::<BitProblem>(name, params, n), ("-".to_string(), no_extra::<BitProblem>()))
         }
         "tsp" => {
